@@ -6,7 +6,7 @@ claim("C03",
 KNOTE = "Kani/CBMC/cvc5/CaDiCaL/Kissat and Verus/Z3 are trusted. Machine arithmetic is bit-precise IEEE-754 / two's complement, never mathematical."
 claim("C01",
   "Verus contracts + loop invariant on the extracted real from_keyframes/get_bounding_frames/value_at (unbounded); Kani contracts on interpolate_value/prepare_frame",
-  "The frame list from_keyframes builds equals, for EVERY keyframe list (any length, any sparse pattern, any easing pattern), the fold the statement describes (synthetic 0% frame with default value + default easing, one frame per defining keyframe with the easing in force, held 100% frame); the index map is the master-to-property map; the O(1) lookup returns consecutive frames that bracket the position (lemma over the `linked` invariant that from_keyframes establishes); value_at = interpolate(lookup(clamp t)); interpolate_value = start.lerp(end, START easing((t-t0)/(t1-t0))) for all positions (Kani, recording probe types). prepare_frame's index is proved bracketing for <=4 master keyframes (bounded).",
+  "The frame list from_keyframes builds equals, for EVERY keyframe list (any length, any sparse pattern, any easing pattern), the fold the statement describes (synthetic 0% frame with default value + default easing, one frame per defining keyframe with the easing in force, held 100% frame); the index map is the master-to-property map; the O(1) lookup returns consecutive frames that bracket the position (lemma over the `linked` invariant that from_keyframes establishes); value_at = interpolate(lookup(clamp t)); interpolate_value = start.lerp(end, START easing((t-t0)/(t1-t0))) for all positions (Kani, recording probe types). prepare_frame's index is proved bracketing for 0..4, 6, 8 and 16 master keyframes (bounded).",
   "A2 (f32 order axioms, each cross-checked by a Kani harness over all bit patterns), A3, V-R1 (from_keyframes taken at &Vec, the derive macro's call shape), pure value function; interpolate_value enters Verus as an uninterpreted function. " + KNOTE,
   "DESIGN.md section 5 C01")
 claim("C02",
@@ -41,12 +41,12 @@ claim("C10",
   "A1, A2, A3. " + KNOTE, "DESIGN.md section 5 C10")
 claim("C11",
   "Kani contract harness on TimelineBuilderArguments::from (sort executed, N<=3 keyframes, symbolic positions)",
-  "For 0..3 keyframes in any insertion order with fully symbolic positions: keyframes come out sorted, boundary_times[i] is keyframe i's position, nothing lost or duplicated, timing reaches the TimeScale. Bounded in the number of keyframes (labelled bounded, not counted as proved); the downstream contracts (C01) take the sorted list, so equal sorted lists give equal timelines.",
-  "bounded: N<=3. " + KNOTE, "DESIGN.md section 5 C11")
+  "For 0..5 and 7 keyframes in any insertion order with fully symbolic positions: keyframes come out sorted, boundary_times[i] is keyframe i's position, nothing lost or duplicated, timing reaches the TimeScale. Bounded in the number of keyframes (labelled bounded, not counted as proved); the downstream contracts (C01) take the sorted list, so equal sorted lists give equal timelines.",
+  "bounded: N in {0..5, 7}. " + KNOTE, "DESIGN.md section 5 C11")
 claim("C12",
-  "Kani harnesses on MergedTimeline over arbitrary abstract component timelines (0..3 components)",
-  "update = components applied in order (later wins), start_with reaches each once, delay=min, duration=max, repeat=max (Repeat is a total order), cycle=common-or-None, clone equivalent, single wrap transparent, disjoint components commute. Bounded in the number of components (0..3), components themselves arbitrary.",
-  "bounded: <=3 components; abstract TL. " + KNOTE, "DESIGN.md section 5 C12")
+  "Kani harnesses on MergedTimeline over arbitrary abstract component timelines (0..5 components)",
+  "update = components applied in order (later wins), start_with reaches each once, delay=min, duration=max, repeat=max (Repeat is a total order), cycle=common-or-None, clone equivalent, single wrap transparent, disjoint components commute. Bounded in the number of components (0..5), components themselves arbitrary.",
+  "bounded: <=5 components; abstract TL. " + KNOTE, "DESIGN.md section 5 C12")
 claim("C13",
   "Kani per-variant harnesses on Easing::calc (endpoints exact, dispatch == published control points for all x, Back range), known finding for timing-function semantics",
   "All 29 built-ins: calc(0)==0 and calc(1)==1 exactly; for every f32 x in [0,1] each variant computes the Bezier polynomial of its PUBLISHED control points (table typed from CSS/easings.net, not from easing.rs); Linear is the identity; custom easings are used as given. The timing-function reading (value at horizontal position x) is a recorded known finding. Range of non-Back curves / monotonicity / mirror are not decided.",
